@@ -79,6 +79,26 @@ pub fn validate_binding<S>(
             }
         }
     }
+    // every other explored transition: the string that takes it must be answered like its target
+    // state (a matcher that is not a function of the automaton state - a pre-filter on the
+    // candidate, say - shows here even when every state's own access string agrees)
+    for (from, ch, to) in ex.cross.iter() {
+        let mut s = strings[*from as usize].clone();
+        s.push(*ch);
+        let t = &ex.states[*to as usize].0;
+        for k in 0..dfas.len().min(real.len()) {
+            let model = automata::acc(dfas, t, k);
+            match guard(|| real[k](&s)) {
+                Ok(r) => {
+                    validated += 1;
+                    if r != model {
+                        mismatches.push(format!("program {} on {:?}: real={} model={}", k, s, r, model));
+                    }
+                },
+                Err(p) => mismatches.push(format!("panic in is_match on {:?}: {}", s, p)),
+            }
+        }
+    }
     (validated, mismatches)
 }
 
